@@ -1369,40 +1369,181 @@ pub fn add_bank_permissionless(
     )
 }
 
-// ---------------- integrations (only the Solend deposit is simulated) ----------------
+// ---------------- integrations: deposit / withdraw of the three venue kinds ----------------
 
-pub fn solend_deposit(
-    b: &crate::actors_integ::SolendBank,
-    account: Pubkey,
-    authority: Pubkey,
-    signer_token_account: Pubkey,
-    amount: u64,
-) -> Ix {
-    mk(
-        "solend_deposit",
-        marginfi::accounts::SolendDeposit {
-            group: b.keys.group,
-            marginfi_account: account,
-            authority,
-            bank: b.keys.bank,
-            signer_token_account,
-            liquidity_vault_authority: b.keys.liquidity_auth,
-            liquidity_vault: b.keys.liquidity_vault,
-            integration_acc_2: b.obligation,
-            lending_market: b.market,
-            lending_market_authority: b.market_auth,
-            integration_acc_1: b.reserve,
-            mint: b.keys.mint,
-            reserve_liquidity_supply: b.liq_supply,
-            reserve_collateral_mint: b.col_mint,
-            reserve_collateral_supply: b.col_supply,
-            user_collateral: b.user_col,
-            pyth_price: b.pyth,
-            switchboard_feed: b.swb,
-            solend_program: crate::rt::solend_id(),
-            token_program: b.keys.token_program,
-        },
-        marginfi::instruction::SolendDeposit { amount },
-        vec![],
-    )
+use crate::actors_integ::{VKind, VenueBank};
+
+pub fn venue_deposit(b: &VenueBank, account: Pubkey, authority: Pubkey, signer_token_account: Pubkey, amount: u64) -> Ix {
+    match b.kind {
+        VKind::Solend => mk(
+            "solend_deposit",
+            marginfi::accounts::SolendDeposit {
+                group: b.keys.group,
+                marginfi_account: account,
+                authority,
+                bank: b.keys.bank,
+                signer_token_account,
+                liquidity_vault_authority: b.keys.liquidity_auth,
+                liquidity_vault: b.keys.liquidity_vault,
+                integration_acc_2: b.acc2,
+                lending_market: b.market,
+                lending_market_authority: b.market_auth,
+                integration_acc_1: b.acc1,
+                mint: b.keys.mint,
+                reserve_liquidity_supply: b.supply,
+                reserve_collateral_mint: b.col_mint,
+                reserve_collateral_supply: b.col_supply,
+                user_collateral: b.user_col,
+                pyth_price: b.misc1,
+                switchboard_feed: b.misc2,
+                solend_program: crate::rt::solend_id(),
+                token_program: b.keys.token_program,
+            },
+            marginfi::instruction::SolendDeposit { amount },
+            vec![],
+        ),
+        VKind::Kamino => mk(
+            "kamino_deposit",
+            marginfi::accounts::KaminoDeposit {
+                group: b.keys.group,
+                marginfi_account: account,
+                authority,
+                bank: b.keys.bank,
+                signer_token_account,
+                liquidity_vault_authority: b.keys.liquidity_auth,
+                liquidity_vault: b.keys.liquidity_vault,
+                integration_acc_2: b.acc2,
+                lending_market: b.market,
+                lending_market_authority: b.market_auth,
+                integration_acc_1: b.acc1,
+                mint: b.keys.mint,
+                reserve_liquidity_supply: b.supply,
+                reserve_collateral_mint: b.col_mint,
+                reserve_destination_deposit_collateral: b.col_supply,
+                obligation_farm_user_state: None,
+                reserve_farm_state: None,
+                kamino_program: crate::rt::kamino_id(),
+                farms_program: marginfi::constants::FARMS_PROGRAM_ID,
+                collateral_token_program: crate::rt::spl_token_id(),
+                liquidity_token_program: b.keys.token_program,
+                instruction_sysvar_account: ix_sysvar_id(),
+            },
+            marginfi::instruction::KaminoDeposit { amount },
+            vec![],
+        ),
+        VKind::Drift => mk(
+            "drift_deposit",
+            marginfi::accounts::DriftDeposit {
+                group: b.keys.group,
+                marginfi_account: account,
+                authority,
+                bank: b.keys.bank,
+                drift_oracle: None,
+                liquidity_vault_authority: b.keys.liquidity_auth,
+                liquidity_vault: b.keys.liquidity_vault,
+                signer_token_account,
+                drift_state: b.market,
+                integration_acc_2: b.acc2,
+                integration_acc_3: b.acc3,
+                integration_acc_1: b.acc1,
+                drift_spot_market_vault: b.supply,
+                mint: b.keys.mint,
+                drift_program: crate::rt::drift_id(),
+                token_program: b.keys.token_program,
+                system_program: system_id(),
+            },
+            marginfi::instruction::DriftDeposit { amount },
+            vec![],
+        ),
+    }
+}
+
+pub fn venue_withdraw(b: &VenueBank, account: Pubkey, authority: Pubkey, destination: Pubkey, amount: u64, all: Option<bool>, remaining: Vec<AccountMeta>) -> Ix {
+    match b.kind {
+        VKind::Solend => mk(
+            "solend_withdraw",
+            marginfi::accounts::SolendWithdraw {
+                group: b.keys.group,
+                marginfi_account: account,
+                authority,
+                bank: b.keys.bank,
+                destination_token_account: destination,
+                liquidity_vault_authority: b.keys.liquidity_auth,
+                liquidity_vault: b.keys.liquidity_vault,
+                integration_acc_2: b.acc2,
+                lending_market: b.market,
+                lending_market_authority: b.market_auth,
+                integration_acc_1: b.acc1,
+                mint: b.keys.mint,
+                reserve_liquidity_supply: b.supply,
+                reserve_collateral_mint: b.col_mint,
+                reserve_collateral_supply: b.col_supply,
+                user_collateral: b.user_col,
+                solend_program: crate::rt::solend_id(),
+                token_program: b.keys.token_program,
+            },
+            marginfi::instruction::SolendWithdraw { amount, withdraw_all: all },
+            remaining,
+        ),
+        VKind::Kamino => mk(
+            "kamino_withdraw",
+            marginfi::accounts::KaminoWithdraw {
+                group: b.keys.group,
+                marginfi_account: account,
+                authority,
+                bank: b.keys.bank,
+                destination_token_account: destination,
+                liquidity_vault_authority: b.keys.liquidity_auth,
+                liquidity_vault: b.keys.liquidity_vault,
+                integration_acc_2: b.acc2,
+                lending_market: b.market,
+                lending_market_authority: b.market_auth,
+                integration_acc_1: b.acc1,
+                reserve_liquidity_mint: b.keys.mint,
+                reserve_liquidity_supply: b.supply,
+                reserve_collateral_mint: b.col_mint,
+                reserve_source_collateral: b.col_supply,
+                obligation_farm_user_state: None,
+                reserve_farm_state: None,
+                kamino_program: crate::rt::kamino_id(),
+                farms_program: marginfi::constants::FARMS_PROGRAM_ID,
+                collateral_token_program: crate::rt::spl_token_id(),
+                liquidity_token_program: b.keys.token_program,
+                instruction_sysvar_account: ix_sysvar_id(),
+            },
+            marginfi::instruction::KaminoWithdraw { amount, withdraw_all: all },
+            remaining,
+        ),
+        VKind::Drift => mk(
+            "drift_withdraw",
+            marginfi::accounts::DriftWithdraw {
+                group: b.keys.group,
+                marginfi_account: account,
+                authority,
+                bank: b.keys.bank,
+                drift_oracle: None,
+                liquidity_vault_authority: b.keys.liquidity_auth,
+                liquidity_vault: b.keys.liquidity_vault,
+                destination_token_account: destination,
+                drift_state: b.market,
+                integration_acc_2: b.acc2,
+                integration_acc_3: b.acc3,
+                integration_acc_1: b.acc1,
+                drift_spot_market_vault: b.supply,
+                drift_reward_oracle: None,
+                drift_reward_spot_market: None,
+                drift_reward_mint: None,
+                drift_reward_oracle_2: None,
+                drift_reward_spot_market_2: None,
+                drift_reward_mint_2: None,
+                drift_signer: b.market_auth,
+                mint: b.keys.mint,
+                drift_program: crate::rt::drift_id(),
+                token_program: b.keys.token_program,
+                system_program: system_id(),
+            },
+            marginfi::instruction::DriftWithdraw { amount, withdraw_all: all },
+            remaining,
+        ),
+    }
 }
